@@ -65,13 +65,20 @@ add('Flash', flash.tla_constants(), zero, bad, 'stepooc', 'fan')
 
 # ---- LiquidEq (C15) -------------------------------------------------------------------------------------------------------
 init = dict(T=0, z='none', cs='none')
-obs = dict(exc='none', msg='', two=True, act=100, same=0, scale=0, top_ok=True, neg=False, method='shgo', n=3, scale_tol=1000000)
+obs = dict(exc='none', msg='', two=True, act=100, same=0, fresh=0, scale=0, top_ok=True, neg=False, method='shgo', n=3, scale_tol=1000000)
 good = dict(op='lle', a=dict(T=1, z='z1', cs='c1', uc=True), post=dict(T=1, z='z1', cs='c1'), obs=obs)
 add('LiquidEq', liquideq.tla_constants(), init, good, OK)
 bad = copy.deepcopy(good); bad['obs']['same'] = 5 * 10 ** 6
 add('LiquidEq', liquideq.tla_constants(), init, bad, 'lle.reuse_differs_from_fresh_solve')
 bad = copy.deepcopy(good); bad['obs']['top_ok'] = False
 add('LiquidEq', liquideq.tla_constants(), init, bad, 'lle.top_chemical_in_wrong_phase')
+bad = copy.deepcopy(good); bad['obs']['fresh'] = 5 * 10 ** 6
+add('LiquidEq', liquideq.tla_constants(), init, bad, 'lle.differs_from_new_stream')
+sobs = dict(exc='none', msg='', moved_other=False, x6=100000, xmax6=-1, solid=6 * 10 ** 7, liquid=4 * 10 ** 7, pure=False, above=False, fresh=0)
+sgood = dict(op='sle', a=dict(solute='AdipicAcid', T=300000, given=False, pure=False, first=False), post=init, obs=sobs)
+add('LiquidEq', liquideq.tla_constants(), init, sgood, OK)
+bad = copy.deepcopy(sgood); bad['obs']['fresh'] = 2 * 10 ** 7
+add('LiquidEq', liquideq.tla_constants(), init, bad, 'sle.differs_from_new_stream')
 
 # ---- Activity (C16) -------------------------------------------------------------------------------------------------------
 obs = dict(exc='none', msg='', unchanged=True, nogroup_dev=0, ideal_dev=0, pure_dev=0, gd=10, perm=0, form=0)
@@ -118,6 +125,41 @@ good_dh = dict(op='dH', a=dict(j=1), post=init, obs=dict(exc='none', Hnet0=0, Hn
 add('ReactEnergy', reactenergy.tla_constants(), init, good_dh, OK)
 bad = copy.deepcopy(good_dh); bad['obs']['dH'] = -25000
 add('ReactEnergy', reactenergy.tla_constants(), init, bad, 'dH.value')
+
+# ---- Naming (X01): two objects; o1 takes the name "a" while o2 holds it (not marked safe): the warning "replaced" is due ----------------
+from harness.drivers import naming, chemset                                   # noqa: E402
+nm0 = dict(data=[['a', 'o2']], id=dict(o1='', o2='a'), ticket=0, safe=[], reg=['o2'], ctx=[[]])
+nm1 = dict(data=[['a', 'o1']], id=dict(o1='a', o2='a'), ticket=0, safe=[], reg=['o1', 'o2'], ctx=[['o1']])
+good = dict(op='set_id', a=dict(o='o1', kind='name', v='a'), post=nm1, obs=dict(exc='none', warn='replaced', res='none', level=[]))
+add('Naming', naming.tla_constants(['o1', 'o2']), nm0, good, OK)
+bad = copy.deepcopy(good); bad['obs']['warn'] = 'none'
+add('Naming', naming.tla_constants(['o1', 'o2']), nm0, bad, 'warning')
+bad = copy.deepcopy(good); bad['post']['data'] = [['a', 'o2']]
+add('Naming', naming.tla_constants(['o1', 'o2']), nm0, bad, 'registry')
+bad = copy.deepcopy(good); bad['post']['ctx'] = [[]]
+add('Naming', naming.tla_constants(['o1', 'o2']), nm0, bad, 'context_levels')
+auto = dict(op='set_id', a=dict(o='o1', kind='auto', v=0), post=dict(data=[['a', 'o2'], ['s1', 'o1']], id=dict(o1='s1', o2='a'), ticket=1, safe=[], reg=['o1', 'o2'], ctx=[['o1']]),
+            obs=dict(exc='none', warn='none', res='none', level=[]))
+add('Naming', naming.tla_constants(['o1', 'o2']), nm0, auto, OK)
+bad = copy.deepcopy(auto); bad['post']['ticket'] = 2; bad['post']['id']['o1'] = 's2'; bad['post']['data'] = [['a', 'o2'], ['s2', 'o1']]
+add('Naming', naming.tla_constants(['o1', 'o2']), nm0, bad, 'registry')
+
+# ---- ChemSet (X02): p = compiled (A, B) with alias x -> A; q empty ------------------------------------------------------------------
+tabp = [['A', 'chem', 'A'], ['B', 'chem', 'B'], ['x', 'chem', 'A']]
+cs0 = dict(col=dict(p=dict(ids=['A', 'B'], compiled=True, tab=tabp), q=dict(ids=[], compiled=False, tab=[])), cal=dict(A=['x'], B=[]))
+cs1 = copy.deepcopy(cs0); cs1['col']['p']['tab'] = tabp + [['g', 'group', ['A', 'B']]]
+good = dict(op='define_group', a=dict(p='p', k='g', ns=['x', 'B']), post=cs1, obs=dict(exc='none', res='none'))
+add('ChemSet', chemset.tla_constants(['A', 'B']), cs0, good, OK)
+bad = copy.deepcopy(good); bad['post']['col']['p']['tab'][-1] = ['g', 'group', ['B', 'A']]
+add('ChemSet', chemset.tla_constants(['A', 'B']), cs0, bad, 'name_table')
+clash = dict(op='set_alias', a=dict(p='p', n='B', k='x'), post=cs0, obs=dict(exc='ValueError', res='none'))
+add('ChemSet', chemset.tla_constants(['A', 'B']), cs0, clash, OK)
+bad = copy.deepcopy(clash); bad['obs']['exc'] = 'none'
+add('ChemSet', chemset.tla_constants(['A', 'B']), cs0, bad, 'not_refused')
+idx = dict(op='index', a=dict(p='p', n='x'), post=cs0, obs=dict(exc='none', res=[1]))
+add('ChemSet', chemset.tla_constants(['A', 'B']), cs0, idx, OK)
+bad = copy.deepcopy(idx); bad['obs']['res'] = [2]
+add('ChemSet', chemset.tla_constants(['A', 'B']), cs0, bad, 'result')
 
 
 def main():
